@@ -562,11 +562,12 @@ def triage(ctx, name, results, absorbed, samples, frontier=False):
 # ------------------------------------------------------------------ run
 def run(ctx):
     ctx.level = "proof"
-    ctx.lean_stage(["emph_chars", "entities"], ["Verif.Props.C02", "Verif.Props.Coalesce", "Verif.Props.LinkRecog", "Verif.Props.InlineRecog", "Verif.Props.Emphasis", "Verif.Props.InlineLoop", "Verif.Props.RegenLeaf"])
+    ctx.lean_stage(["emph_chars", "entities"], ["Verif.Props.C02", "Verif.Props.Coalesce", "Verif.Props.LinkRecog", "Verif.Props.InlineRecog", "Verif.Props.Emphasis", "Verif.Props.InlineLoop", "Verif.Props.RegenLeaf", "Verif.Props.LeafBlocks2"])
     import blocks
     blocks.linkrecog(ctx)      # *_reassembly, rehydrate_lossless_partial / rehydrate_excluded
     blocks.inlinerecog(ctx)    # angle / rawhtml / charref / backslash / codespan reassembly, codespan_text_roundtrip
     blocks.emphasis(ctx)       # resolve_conservation, resolve_plains_preserved, resolve_lossless_partial
+    blocks.leafblocks2(ctx)    # fence_content_roundtrip_partial, icode_roundtrip: stored white space + text = the source line (through resolve_encode / remove_encode)
     blocks.regenleaf(ctx)      # container-free regenerator: regen_total / _concat / _leaf_roundtrip / _paragraph_text / _field_local (Verif.Props.RegenLeaf)
     blocks.inlineloop(ctx)     # inline_loop_conservation: text pieces + handler-consumed ranges tile the paragraph text exactly; inline_loop_content_partial
     ctx.block("coalescelib", "coalesce", __import__("blocks").SRC["coalesce"])        # coalesce pass: content preserved, no adjacent text (Verif.Props.Coalesce)
